@@ -12,7 +12,7 @@ CHECKS = {
    design="5 C06, 4.2"),
  "C04": dict(
    technique="TLA+ spec AckQueue model-checked with TLC; TLC-generated call sequences replayed on the real ack.Queue; every return value and callback validated against the spec by TLC (trace validation)",
-   text="Exhaustive within bounds: TLC enumerates call sequences over Insert/Ack/Expire (coinciding and same-second deadlines, every ack packet type, duplicate and refused registrations, sweeps before/between/after; exhaustive to depth 3-4, simulated to depth 7-9), each closed by a far-future sweep; the real queue's return values and callbacks must be a behaviour of AckQueue.tla (ExactlyOnce, frame conditions, must/may sweep window).",
+   text="Exhaustive within bounds: TLC enumerates call sequences over Insert/Ack/Expire (coinciding and same-second deadlines, every ack packet type, duplicate and refused registrations, sweeps before/between/after; exhaustive to depth 3-4, simulated to depth 7-9), each closed by a far-future sweep; the real queue's return values and callbacks must be a behaviour of AckQueue.tla (ExactlyOnce, frame conditions, must/may sweep window). Below the queue, the bare expiry structure (expiration.NewList) is driven on its own: TimeoutList.tla transcribes buckets/heap as coded and is model-checked against the bag of (value, deadline) pairs it refines, with three transcribed defects as negative controls; TLC-generated Insert/Delete/Expire sequences over same-second, sub-second and rounding-boundary deadlines are replayed on the real structure and every sweep report validated (TimeoutListTrace).",
    note="Trusts TLC and the Json module. Sweep latitude: must fire at now >= deadline+1s, must not at now <= deadline-1s. Callbacks attributed by a tag in the closure. Concurrent use is C20.",
    design="5 C04, 4.3"),
  "C01": dict(
@@ -37,17 +37,17 @@ CHECKS = {
    design="5 C08, 4.7"),
  "C09": dict(
    technique="TLA+ spec Crdt model-checked with TLC (BroadcastComplete); TLC-generated mutator sequences incl. bulk deletes executed on a real node; drained broadcasts decoded and validated by TLC against the entries touched, origin and receiver listings against LWW (trace validation)",
-   text="Exhaustive within bounds: every sequence of 3 (thorough 4) mutators (add, delete, DeletePeer, DeleteSession) over 3 keys on one origin, per map, plus simulated two-origin histories; after each mutator the queued broadcast must carry exactly the entries touched, the origin must list what those entries imply, and a fresh receiver of all broadcasts must list the same.",
+   text="Exhaustive within bounds: every sequence of 3 (thorough 4) mutators (add, delete, DeletePeer, DeleteSession) over 3 keys on one origin, per map, plus simulated two-origin histories; after each mutator the queued broadcast must carry exactly the entries touched, the origin must list what those entries imply, and a fresh receiver of all broadcasts must list the same. A share of the histories runs with the audit sink unreachable (real gRPC recorder on a dead connection), and with a transmit queue that keeps its broadcasts as in production (a later broadcast may invalidate an earlier one): what the queue still holds at the end must bring a fresh receiver to the origin's listing.",
    note="Trusts TLC, the Json module, the clock hook; broadcasts are drained from the real TransmitLimitedQueue.",
    design="5 C09, 4.7"),
  "C10": dict(
    technique="TLA+ spec Crdt model-checked with TLC (PushDominates); TLC-generated pairs of node histories with lost gossip and pushes executed via real LocalState/MergeRemoteState; listings after each push validated by TLC against LWW (trace validation)",
-   text="Exhaustive within bounds: every pair of node histories with 3 (thorough 4) local operations and all gossip lost, plus simulated histories with partial gossip and TLC-chosen pushes; each followed by a push into a fresh node, a one-way push and an exchange in both directions; every node's listing after every step must be LWW over its own updates plus the sender's.",
+   text="Exhaustive within bounds: every pair of node histories with 3 (thorough 4) local operations and all gossip lost, plus simulated histories with partial gossip and TLC-chosen pushes; each followed by a push into a fresh node, a one-way push and an exchange in both directions; every node's listing after every step must be LWW over its own updates plus the sender's. After the exchange both nodes are pushed into further fresh nodes (snapshots served repeatedly, entries learnt only by merging).",
    note="Trusts TLC, the Json module, the clock hook.",
    design="5 C10, 4.7"),
  "C16": dict(
    technique="TLA+ spec Auth model-checked with TLC; TLC-generated credential-table shapes materialised as files for the real auth.FileHandler/StaticHandler; every load and Authenticate outcome validated by TLC against Admit/MountOf (trace validation)",
-   text="Exhaustive within bounds: every table shape over 5 (thorough 6) user names (absent / 2-field / 3-field line) x line orders (sorted, reversed, seeded shuffles); per table every present user with right / empty / wrong / another user's password, every absent user, empty and unknown user names; three-field lines with an empty mount column; the static store with all 16 combinations. Load must succeed and each outcome must equal Admit with the entry's mount point (default when none).",
+   text="Exhaustive within bounds: every table shape over 5 (thorough 6) user names (absent / 2-field / 3-field line) x line orders (sorted, reversed, seeded shuffles); per table every present user with right / empty / wrong / another user's password, every absent user, empty and unknown user names; three-field lines with an empty mount column; the static store with all 16 combinations. Load must succeed and each outcome must equal Admit with the entry's mount point (default when none). Candidates include near misses of every configured pair: user/password boundary moved, swapped, joined, padded, case-changed, truncated, doubled.",
    note="Trusts TLC and the Json module. User names with ':' '\"' newline and duplicate user names are not generated.",
    design="5 C16, 4.9"),
  "C15": dict(
@@ -57,7 +57,7 @@ CHECKS = {
    design="5 C15, 4.6"),
  "C02": dict(
    technique="TLA+ specs MsgLog/Inbound model-checked with TLC (TruncSafe with Margin-0 negative control); TLC-generated publish/subscribe scripts and seeded long runs executed on a real in-process node; the recorded trace validated by TLC against the broker specification BrokerTrace incl. the quiescence obligation (trace validation)",
-   text="Every TLC-generated script of 3 (thorough 4) steps in which clients both publish (QoS 0/1/2, delayed PUBREL) and subscribe on a fresh node (first message ever stored included); seeded long runs of bursts with payloads up to 70 KB crossing the 500-entry segment roll and the truncations at 2000/3000 with a gated subscriber that makes the writer lag by a full queue at the truncation points, on empty and pre-filled logs. At quiescence every acknowledged publish must have reached every session that stayed connected with a matching subscription, topic and payload (length+CRC) intact.",
+   text="Every TLC-generated script of 3 (thorough 4) steps in which clients both publish (QoS 0/1/2, delayed PUBREL) and subscribe on a fresh node (first message ever stored included); seeded long runs of bursts with payloads up to 70 KB crossing the 500-entry segment roll and the truncations at 2000/3000 with a gated subscriber that makes the writer lag by a full queue at the truncation points, on empty and pre-filled logs. At quiescence every acknowledged publish must have reached every session that stayed connected with a matching subscription, topic and payload (length+CRC) intact. A subscriber that stops reading for a whole burst carrying the log past a truncation point, then resumes, must still receive everything (writer lagging far behind the log consumer).",
    note="Trusts TLC, the Json module, the harness seams and completion hooks. Long runs are seeded samples; the scripts are exhaustive within their bounds.",
    design="5 C02, 4.6, 4.5"),
  "C03": dict(
@@ -67,37 +67,37 @@ CHECKS = {
    design="5 C03, 4.4"),
  "C05": dict(
    technique="TLA+ spec Inbound model-checked with TLC; TLC-generated publisher scripts with injected log/RPC failures executed on two real nodes; every append and acknowledgement validated by TLC against BrokerTrace (trace validation)",
-   text="Exhaustive within bounds: every publisher script of depth 3 (thorough 4) over PUBLISH QoS 0/1/2 x ids {1,2}, PUBREL (matching, repeated, unknown), handshake time-out, with failures of either node's log append or of the RPC towards it toggled between steps, plus simulated longer scripts; PUBACK/PUBCOMP only after the message is in the log of every hosting node, never after a failed write, QoS 2 forwarded exactly once per handshake and never on PUBLISH alone.",
+   text="Exhaustive within bounds: every publisher script of depth 3 (thorough 4) over PUBLISH QoS 0/1/2 x ids {1,2}, PUBREL (matching, repeated, unknown), handshake time-out, with failures of either node's log append or of the RPC towards it toggled between steps, plus simulated longer scripts; PUBACK/PUBCOMP only after the message is in the log of every hosting node, never after a failed write, QoS 2 forwarded exactly once per handshake and never on PUBLISH alone. Plus every QoS 2 script of depth 5 (thorough 6) on a two-destination message with >= 2 PUBRELs and an injected failure, and QoS 1 scripts that re-use one identifier (DUP set on the re-uses) across injected failures.",
    note="Trusts TLC, the Json module, the harness seams (message-log and transport wrappers inject the failures).",
    design="5 C05, 4.5"),
  "C14": dict(
    technique="TLA+ spec Inbound model-checked with TLC; TLC-generated distribution scripts executed on three real nodes joined by the harness network; every log append, delivery and acknowledgement validated by TLC against BrokerTrace (trace validation)",
-   text="Publishers on two nodes, topics hosted on {1,2}, {2}, {1}, {} of three nodes, QoS 0/1/2, every combination of failing destinations (log / RPC) toggled between steps: each message must be appended exactly once to the log of each hosting node known to the publisher and to no other, each node writes it only to its local matching sessions, a failing destination does not prevent the others (checked at quiescence) and withholds the acknowledgement.",
+   text="Publishers on two nodes, topics hosted on {1,2}, {2}, {1}, {} of three nodes, QoS 0/1/2, every combination of failing destinations (log / RPC) toggled between steps: each message must be appended exactly once to the log of each hosting node known to the publisher and to no other, each node writes it only to its local matching sessions, a failing destination does not prevent the others (checked at quiescence) and withholds the acknowledgement. One topic is hosted on two nodes that are both remote for the publisher (failure isolation between remote destinations).",
    note="Trusts TLC, the Json module, the harness seams; gossip is fully delivered between steps.",
    design="5 C14, 4.5"),
  "C11": dict(
    technique="TLA+ spec Session model-checked with TLC (EndsOnlyForCause, NoEarlyExpiry, ClosedAtEnd, NoTraceLeft); TLC-generated session scripts executed on real nodes over virtual-time connections; the recorded trace validated by TLC against BrokerTrace incl. probes of every node at quiescence (trace validation)",
-   text="TLC-generated scripts (depth 5, thorough 6) of two connections on two nodes over connect / subscribe / ping / idle 0.5, 0.95, 2.1, 10 keep-alives at any position (incl. right after CONNECT, up to 3 per script) / DISCONNECT / connection loss / malformed packet / second CONNECT / publish, plus scripts with a hosting-node failure: no time-out within the keep-alive of the last client packet, no unregistration without cause, connection closed at the end, nothing written to an ended session, every node lists exactly the live sessions and their subscriptions at quiescence.",
+   text="TLC-generated scripts (depth 5, thorough 6) of two connections on two nodes over connect / subscribe / ping / idle 0.5, 0.95, 2.1, 10 keep-alives at any position (incl. right after CONNECT, up to 3 per script) / DISCONNECT / connection loss / malformed packet / second CONNECT / publish, plus scripts with a hosting-node failure: no time-out within the keep-alive of the last client packet, no unregistration without cause, connection closed at the end, nothing written to an ended session, every node lists exactly the live sessions and their subscriptions at quiescence. Plus long-lived well-behaved clients (random walks of 14 steps with a PINGREQ after every idle period of 0.5 / 0.95 keep-alives; the virtual connection has net.Conn's write-deadline semantics) and one scenario in six with the audit sink unreachable.",
    note="Trusts TLC, the Json module, the harness (virtual clock for connection deadlines, completion hooks). Scripts are an even sample of the exhaustive set. The peer-failure purge is a real 3.3 s wait.",
    design="5 C11, 4.8"),
  "C12": dict(
    technique="TLA+ spec Session model-checked with TLC (OneResolved, SuccessorSpared); TLC-generated takeover scripts (pairs, chains) and hand-written in-flight-tombstone schedules executed on real nodes; validated by TLC against BrokerTrace (trace validation)",
-   text="Pairs on one node, pairs on two nodes and chains of three connections sharing a client id, with the old session's PINGREQ / SUBSCRIBE / DISCONNECT / close interleaved in every order (depth 5-6, sampled evenly), plus schedules where the accepting node still lists a stale record: the new session is established, the displaced one gets no PINGRESP and ends, every node lists exactly the live non-displaced sessions and their subscriptions.",
+   text="Pairs on one node, pairs on two nodes and chains of three connections sharing a client id, with the old session's PINGREQ / SUBSCRIBE / DISCONNECT / close interleaved in every order (depth 5-6, sampled evenly), plus schedules where the accepting node still lists a stale record: the new session is established, the displaced one gets no PINGRESP and ends, every node lists exactly the live non-displaced sessions and their subscriptions. Plus 'late news' schedules: the takeover happens while gossip is held back and the displaced session ends (or not) on its node before that node hears of it; released in order or newest first; the successor must keep being served and listed.",
    note="Trusts TLC, the Json module, the harness gossip network. C12's proviso: records of earlier sessions are merged at the accepting node; clocks not skewed.",
    design="5 C12, 4.8"),
  "C13": dict(
    technique="TLA+ spec Session model-checked with TLC (WillIffUnclean); TLC-generated scripts for will-carrying sessions executed on real nodes with watchers; will appends and deliveries validated by TLC against BrokerTrace (trace validation)",
-   text="Will QoS 0-2, retained or not, multi-level topic, tenant A, host node 1 or 2; causes DISCONNECT / close / malformed / keep-alive expiry / node failure at every position of scripts of depth 4 (thorough 5); watchers with '#', '+', exact and non-matching filters on two nodes and in another tenant: the will is appended only after an unclean end, under the tenant-prefixed topic, and every matching watcher receives it once per matching subscription; never after DISCONNECT.",
+   text="Will QoS 0-2, retained or not, multi-level topic, tenant A, host node 1 or 2; causes DISCONNECT / close / malformed / keep-alive expiry / node failure at every position of scripts of depth 4 (thorough 5); watchers with '#', '+', exact and non-matching filters on two nodes and in another tenant: the will is appended only after an unclean end, under the tenant-prefixed topic, and every matching watcher receives it once per matching subscription; never after DISCONNECT. Plus three-node failures: the two survivors are told in either order, with or without the first survivor's gossip delivered in between.",
    note="Trusts TLC, the Json module, the harness. Displacement is not among C13's causes (will allowed, not required).",
    design="5 C13, 4.8"),
  "C17": dict(
    technique="TLA+ specs Session/Topics model-checked with TLC; TLC-generated multi-tenant scripts executed on real nodes; every delivery and every session listing validated by TLC against BrokerTrace (trace validation)",
-   text="Three connections in tenants A, B, A (client ids dev, dev, dev3) on two nodes with '#', '+', '+/+' subscriptions, publishers, retained messages and wills in both tenants, topics named like the other tenant, three '#' watchers: every PUBLISH written must stem from a message of the recipient's tenant and carry exactly the publisher's topic levels; a session is displaced only by a same-tenant session of the same client id.",
+   text="Three connections in tenants A, B, A (client ids dev, dev, dev3) on two nodes with '#', '+', '+/+' subscriptions, publishers, retained messages and wills in both tenants, topics named like the other tenant, three '#' watchers: every PUBLISH written must stem from a message of the recipient's tenant and carry exactly the publisher's topic levels; a session is displaced only by a same-tenant session of the same client id. Plus failures of a node hosting (retained) wills whose topics spell the other tenant's mount point, with '#' watchers of every tenant before and subscribers after the failure; mount points with '/' in their names.",
    note="Trusts TLC, the Json module, the harness authentication seam (user 'tenant:<x>' -> mount point x). Mount-point names without '/', '+', '#'.",
    design="5 C17, 4.8"),
  "C18": dict(
    technique="TLA+ spec ConnFsm model-checked with TLC; TLC-generated packet-type sequences, each malformed input realised by structure-aware byte mutations, sent to real brokers running in child processes with a witness round trip after every stream; process deaths observed directly, traces validated by TLC against BrokerTrace (trace validation)",
-   text="Every sequence of 3 inputs (thorough: + 20000 of length 4) over all 14 control packet types, MALFORMED and EOF before CONNECT, plus about 1000 byte-level mutations (truncation at every offset with EOF, first-byte values, remaining-length edge values up to 268435455 and 5-byte lengths, inner length prefixes, QoS 3, empty lists, identifier 0, seeded random bytes) each alone before and after a valid CONNECT: the broker process must survive (a panic kills the child process and is reported with the stream), only the offender's session may end, the witness pair's QoS 1 round trip must succeed after every stream, nothing may stall.",
+   text="Every sequence of 3 inputs (thorough: + 20000 of length 4) over all 14 control packet types, MALFORMED and EOF before CONNECT, plus about 1000 byte-level mutations (truncation at every offset with EOF, first-byte values, remaining-length edge values up to 268435455 and 5-byte lengths, inner length prefixes, QoS 3, empty lists, identifier 0, seeded random bytes) each alone before and after a valid CONNECT: the broker process must survive (a panic kills the child process and is reported with the stream), only the offender's session may end, the witness pair's QoS 1 round trip must succeed after every stream, nothing may stall. Well-formed protocol violations are always-run streams (wildcard and odd topic names, retained or not; misplaced wildcards in filters; retained will on a wildcard topic); the witness also publishes retained messages and periodically a new client connects, subscribes (retained replay), pings and leaves.",
    note="Trusts TLC, the Json module, the harness. Which bytes realise 'malformed' is outside TLA+. Quick samples 3200 of the streams (seeded).",
    design="5 C18, 8"),
  "C20": dict(
